@@ -371,6 +371,9 @@ class TransformationGraph(Graph):
             else:
                 x = self.add_expr(expr.x, root, BNode(), intermediate=True,
                     origin=origin)
+            # The inputs that `f` already has at this point, that is, those
+            # other than `x`
+            f_inputs = list(self.objects(f, TF["from"]))
             self.add_from(f, x)
 
             # If `x` has internal operations of its own, then those inner
@@ -390,9 +393,8 @@ class TransformationGraph(Graph):
             # ... and every input to `f` should be an input to this internal
             # operation
             if current_internal:
-                for f_input in self.objects(f, TF["from"]):
-                    if x != f_input:
-                        self.add_from(current_internal, f_input)
+                for f_input in f_inputs:
+                    self.add_from(current_internal, f_input)
 
                 if origin and self.with_workflow_origin:
                     self.add((current_internal, TF["origin"], origin))
